@@ -174,11 +174,31 @@ def uf_axioms(apps, max_rounds=3):
 
 
 class Frozen:
-    """universal assumption frozen at assume time: template term over bound placeholders"""
+    """universal assumption frozen at assume time: template term over bound placeholders.
+
+    Instantiation is trigger based (as in E-matching): a bound variable is instantiated with t only if some
+    uninterpreted application f(.., bv, ..) of the template already occurs in the VC as f(.., t, ..)."""
 
     def __init__(self, ks, tmpl):
         self.ks = ks
         self.tmpl = tmpl
+        kid = {k.get_id(): n for n, k in enumerate(ks)}
+        self.triggers = [set() for _ in ks]
+        for t in walk([tmpl]):
+            if z3.is_app(t) and t.num_args() > 0 and t.decl().kind() == z3.Z3_OP_UNINTERPRETED:
+                for pos, a in enumerate(t.children()):
+                    if a.get_id() in kid:
+                        self.triggers[kid[a.get_id()]].add((t.decl().name(), pos))
+
+    def candidates(self, var, occ, all_terms):
+        trg = self.triggers[var]
+        if not trg:
+            return all_terms
+        out = {}
+        for key in trg:
+            for t in occ.get(key, ()):
+                out[t.get_id()] = t
+        return list(out.values())
 
 
 def walk(terms):
@@ -201,27 +221,78 @@ def walk(terms):
 UF_BY_NAME = {f.name(): k for k, f in UF.items()}
 
 
+_CC = {}          # root ast id -> (root kept alive, idx, apps, occ) : pc formulas recur in every VC of a path
+_DK = {}
+
+
+def _collect_one(root):
+    import z3.z3core as zc
+    ctx = root.ctx
+    cr = ctx.ref()
+    idx, apps, occ = [], [], []
+    seen = set()
+    stack = [root.as_ast()]
+    IntS = z3.IntSort()
+    while stack:
+        a = stack.pop()
+        i = zc.Z3_get_ast_id(cr, a)
+        if i in seen:
+            continue
+        seen.add(i)
+        k = zc.Z3_get_ast_kind(cr, a)
+        if k == z3.Z3_QUANTIFIER_AST:
+            stack.append(zc.Z3_get_quantifier_body(cr, a))
+            continue
+        if k != z3.Z3_APP_AST:
+            continue
+        app = zc.Z3_to_app(cr, a)
+        n = zc.Z3_get_app_num_args(cr, app)
+        if n == 0:
+            continue
+        args = [zc.Z3_get_app_arg(cr, app, q) for q in range(n)]
+        stack.extend(args)
+        d = zc.Z3_get_app_decl(cr, app)
+        if zc.Z3_get_decl_kind(cr, d) != z3.Z3_OP_UNINTERPRETED:
+            continue
+        t = z3.z3._to_expr_ref(a, ctx)
+        nm = t.decl().name()
+        if nm in UF_BY_NAME:
+            apps.append((UF_BY_NAME[nm], t))
+            continue
+        for pos, c in enumerate(t.children()):
+            if c.sort() == IntS:
+                occ.append(((nm, pos), c))
+                if not z3.is_int_value(c):
+                    idx.append(c)
+    return idx, apps, occ
+
+
 def collect(terms):
-    """index terms (Int arguments of uninterpreted functions) and applications of the modelled real functions"""
+    """index terms (Int arguments of uninterpreted functions), their occurrences per (function, position), and
+    applications of the modelled real functions"""
     idx = {}
     apps = {}
-    for t in walk(terms):
-        if not z3.is_app(t) or t.num_args() == 0:
-            continue
-        d = t.decl()
-        if d.kind() != z3.Z3_OP_UNINTERPRETED:
-            continue
-        nm = d.name()
-        if nm in UF_BY_NAME and UF[UF_BY_NAME[nm]].eq(d) if hasattr(d, 'eq') else nm in UF_BY_NAME:
-            apps.setdefault(UF_BY_NAME[nm], {})[t.get_id()] = (list(t.children()), t)
-            continue
-        for a in t.children():
-            if a.sort() == z3.IntSort() and not z3.is_int_value(a):
-                idx[a.get_id()] = a
-    return idx, apps
+    occ = {}
+    for root in terms:
+        rid = root.get_id()
+        ent = _CC.get(rid)
+        if ent is None:
+            ent = (root,) + _collect_one(root)
+            if len(_CC) > 20000:
+                _CC.clear()
+            _CC[rid] = ent
+        _r, i1, a1, o1 = ent
+        for c in i1:
+            idx[c.get_id()] = c
+        for f, t in a1:
+            apps.setdefault(f, {})[t.get_id()] = (list(t.children()), t)
+        for key, c in o1:
+            occ.setdefault(key, {})[c.get_id()] = c
+    occ = {k: list(v.values()) for k, v in occ.items()}
+    return idx, apps, occ
 
 
-def build_hyps(engine, pc, univ, idx0, apps0, sums, path=None, goal=None, rounds=3, cap=600):
+def build_hyps(engine, pc, univ, idx0, apps0, sums, path=None, goal=None, rounds=3, cap=4000):
     """pc + instances of the universal assumptions at every index term + ground axioms of the real functions"""
     base = list(pc)
     extra = []
@@ -236,15 +307,15 @@ def build_hyps(engine, pc, univ, idx0, apps0, sums, path=None, goal=None, rounds
     base += sum_lem
     inst = []
     done = set()
-    for _ in range(rounds):
-        idx, _apps = collect(base + extra + inst)
+    for rnd in range(rounds):
+        idx, _apps, occ = collect(base + extra + inst)
         for k, v in idx0.items():
             idx.setdefault(k, v)
         terms = list(idx.values())
         progressed = False
         for u in univ:
             if len(u.ks) == 1:
-                for i in terms:
+                for i in u.candidates(0, occ, terms):
                     key = (id(u), i.get_id())
                     if key in done:
                         continue
@@ -252,20 +323,22 @@ def build_hyps(engine, pc, univ, idx0, apps0, sums, path=None, goal=None, rounds
                     progressed = True
                     inst.append(z3.substitute(u.tmpl, (u.ks[0], i)))
             else:
-                for i in terms:
-                    for j in terms:
+                c0 = u.candidates(0, occ, terms)
+                c1 = u.candidates(1, occ, terms)
+                if len(c0) * len(c1) > 900:
+                    c0, c1 = c0[:30], c1[:30]
+                for i in c0:
+                    for j in c1:
                         key = (id(u), i.get_id(), j.get_id())
                         if key in done:
                             continue
                         done.add(key)
                         progressed = True
                         inst.append(z3.substitute(u.tmpl, (u.ks[0], i), (u.ks[1], j)))
-            if len(inst) > cap:
-                break
         if not progressed or len(inst) > cap:
             break
     hy = base + inst
-    _idx, apps = collect(hy + extra)
+    _idx, apps, _occ = collect(hy + extra)
     hy += uf_axioms(apps)
     sc = engine.all_strconsts()
     if len(sc) > 1:
